@@ -400,7 +400,7 @@ def _reach(lmp):
 
 def _logs(ctx, lmp, feeder):
     rec = ctx.rec
-    n = ctx.pick(960, 15000)
+    n = ctx.pick(960, 6000)
     for i in ctx.cases('logs', n):
         rng = ctx.rng
         spec = GEN.spec_for(i, rng, big=True)
@@ -481,7 +481,7 @@ def _logs(ctx, lmp, feeder):
 def _histories(ctx, lmp, feeder):
     """Sequences of 1-4 read() calls on one Log object, runs cut from one global step plan."""
     rec = ctx.rec
-    n = ctx.pick(400, 6000)
+    n = ctx.pick(400, 2400)
     for i in ctx.cases('histories', n):
         rng = ctx.rng
         nlogs = 1 + i % 4
